@@ -150,6 +150,7 @@ pub fn run(args: &Args) {
         "cpu48", "cpu128", "cpu128_c000_bank5", "cpu128_shadow", "ldir48", "fastload48", "sna48", "sna128",
         "sna128_shadow", "szx48", "szx128_compressed", "szx128_shadow", "scr48", "scr128", "poke48", "poke128_shadow",
         "fastload128_c000_bank5", "fastload128_shadow", "cpu128_locked", "cpu128_shadow_locked", "cpu48_snapshot_taken",
+        "szx128_shadow_nospcr",
     ];
     for round in 0..rounds {
         for (pi, path) in paths.iter().enumerate() {
@@ -271,6 +272,13 @@ pub fn run(args: &Args) {
                     emu.verif_wait(r.below(FRAME_48 as u64 - 1000) as usize);
                     emu.load_snapshot(Snapshot::Szx(VAsset::new(szx(&d, &SzxOpts { cycles: szx_cycles as u32, ..Default::default() })))).unwrap();
                 }
+                "szx128_shadow_nospcr" => {
+                    // the shadow screen is displayed when a file without an SPCR chunk arrives: it says nothing about paging,
+                    // the latch stays what it was, and the picture is the bank the latch selects
+                    cpu_out(&mut emu, 0x7FFD, 8);
+                    let d = desc_with_screen(true, &scr, true, &mut r);
+                    emu.load_snapshot(Snapshot::Szx(VAsset::new(szx(&d, &SzxOpts { no_spcr: true, ..Default::default() })))).unwrap();
+                }
                 "szx128_compressed" | "szx128_shadow" => {
                     let d = desc_with_screen(true, &scr, shadow, &mut r);
                     if !shadow {
@@ -303,6 +311,9 @@ pub fn run(args: &Args) {
             let visible: Vec<u8> = if shadow && locked {
                 // paging is locked: bank 7 is read through the memory hook
                 emu.verif_ram_bank(7)[..6912].to_vec()
+            } else if path.contains("nospcr") {
+                let (latch, _) = emu.verif_paging();
+                emu.verif_ram_bank(if latch & 8 != 0 { 7 } else { 5 })[..6912].to_vec()
             } else if shadow {
                 let (latch, _) = emu.verif_paging();
                 assert!(latch & 8 != 0, "shadow screen not selected on path {path}");
